@@ -502,6 +502,9 @@ long long c_voronoi(long long nrows, long long ncols,
     long long i, j, jmin, ierr, idxcell;
     double xy[2], dx, dy, dist, distmin;
 
+    if(npoints < 1)
+        return GRID_ERROR + __LINE__;
+
     for(j=0; j<npoints; j++)
         weights[j] = 0;
 
